@@ -279,6 +279,25 @@ _spec_to_re: dict[str, str]'''),
 from random import Random''', '''import functools
 import re
 from random import Random''')]),
+    dict(id="p15_with_lock_around_spec_lookup", prop="C15", expect="pass", patches=[
+        (BBAN, '''def _get_bban_spec(country_code: str) -> dict[str, Any]:
+    try:
+        spec = registry.get("iban")
+        assert isinstance(spec, dict)
+        return spec[country_code]''', '''import threading
+
+_spec_lock = threading.Lock()
+_spec_hits: dict[str, int] = {}
+
+
+def _get_bban_spec(country_code: str) -> dict[str, Any]:
+    try:
+        with _spec_lock:
+            spec = registry.get("iban")
+            assert isinstance(spec, dict)
+            found = spec[country_code]
+            _spec_hits[country_code] = _spec_hits.get(country_code, 0) + 1
+            return found''')], note="a correct `with lock:` section on a hot path: injected aborts must not leak the lock (no abort at the with-exit clean-up)"),
     # ---------------------------------------------------------------- C13
     dict(id="m13_country_from_hash_ordered_set", prop="C13", expect="flag", patches=[
         (BBAN, '''            country_code = random.choice(list(banks_by_country.keys()))''',
